@@ -162,6 +162,13 @@ Definition tick_msg (s : sess) (m : wmsg) : sess * outcome :=
 Definition init (delay_open exact : bool) (holdtime : N) (local_ap : list fam) : sess :=
   mkS SIdle 0 false false false false true delay_open true exact holdtime local_ap None sc_modern [] [].
 
+(* Session::attach_stream (pinned): a new Connection - Connection::for_read_half, which starts from SessionConfig::modern() - replaces
+   whatever connection there was, then TcpConnectionConfirmed is handled.  This is how one Session negotiates a second time. *)
+Definition fresh_conn (s : sess) : sess :=
+  mkS (s_st s) (s_crc s) (s_crt s) (s_hold s) (s_ka s) (s_dot s) true (s_delay_open s) (s_nwo s) (s_exact s) (s_holdtime s) (s_local_ap s)
+      (s_neg s) sc_modern (s_out s) (s_app s).
+Definition attach_stream (s : sess) : sess * outcome := fsm_step (fresh_conn s) ETcpConnectionConfirmed dummy_open.
+
 (* ---- frames (C09) ---- *)
 (* Connection::parse_frame on the receive buffer: a frame and the rest, nothing yet, or an error.  [valid] is
    Message::from_octets on the frame (an error there is an error of the extraction; the buffer is then not advanced) *)
